@@ -354,6 +354,27 @@ def Elem.render (x : Elem) : Bytes := x.pre ++ (x.e.core ++ x.post)
 
 def Elem.OK (x : Elem) : Prop := x.pre.all isOws = true ∧ x.post.all isOws = true ∧ x.e.OK
 
+instance (t : Bytes) : Decidable (TokenOK t) := inferInstanceAs (Decidable (t ≠ [] ∧ t.all isTokenByte = true))
+instance (sp : Bytes) : Decidable (SpOK sp) := inferInstanceAs (Decidable (sp ≠ [] ∧ sp.all isOws = true))
+instance (l : QBody) : Decidable (QbOK l) :=
+  inferInstanceAs (Decidable (∀ p ∈ l, p.2 = true ∨ (p.1 ≠ 34 ∧ p.1 ≠ 92)))
+instance : (v : ValW) → Decidable v.OK
+  | .tok t => inferInstanceAs (Decidable (TokenOK t))
+  | .quo l => inferInstanceAs (Decidable (QbOK l))
+instance (p : ParamW) : Decidable p.OK :=
+  inferInstanceAs (Decidable (TokenOK p.name ∧ p.bws1.all isOws = true ∧ p.bws2.all isOws = true ∧ p.val.OK))
+instance : (w : ElemW) → Decidable w.OK
+  | .empty => inferInstanceAs (Decidable True)
+  | .param p => inferInstanceAs (Decidable p.OK)
+  | .scheme s => inferInstanceAs (Decidable (TokenOK s))
+  | .schemeParam s sp p => inferInstanceAs (Decidable (TokenOK s ∧ SpOK sp ∧ p.OK))
+  | .scheme68 s sp t => inferInstanceAs (Decidable (TokenOK s ∧ SpOK sp ∧ isToken68 t = true))
+instance (x : Elem) : Decidable x.OK :=
+  inferInstanceAs (Decidable (x.pre.all isOws = true ∧ x.post.all isOws = true ∧ x.e.OK))
+
+/-- a value written without gratuitous quoted-pairs -/
+def plainQ (v : Bytes) : ValW := .quo (v.map fun c => (c, c == 34 || c == 92))
+
 /-! ### the loop body on a rendered element -/
 
 def newChal (st : PState) (s : Bytes) : PState :=
